@@ -3,7 +3,7 @@
 (* C17, forward direction: Groups!Numbering is a pure function with rich   *)
 (* case analysis, so TLC turns its domain into implementation tests: every *)
 (* sequence of group declarations up to the length bound over a small      *)
-(* vocabulary (unnamed, named a / b, numbered 2 / 5, each also under       *)
+(* vocabulary (unnamed, named a / b, numbered 2 / 3 / 5, each also under   *)
 (* ExplicitCapture) x {default, order}, with the predicted numbering.      *)
 (* The replayer builds a pattern in which the i-th declaration matches the *)
 (* i-th letter and checks every observable of the name/number map.         *)
@@ -16,6 +16,7 @@ Vocab == << [kind |-> "u", nm |-> "", num |-> 0, x |-> FALSE],
             [kind |-> "n", nm |-> "a", num |-> 0, x |-> FALSE],
             [kind |-> "n", nm |-> "b", num |-> 0, x |-> FALSE],
             [kind |-> "k", nm |-> "2", num |-> 2, x |-> FALSE],
+            [kind |-> "k", nm |-> "3", num |-> 3, x |-> FALSE],
             [kind |-> "k", nm |-> "5", num |-> 5, x |-> FALSE],
             [kind |-> "u", nm |-> "", num |-> 0, x |-> TRUE],
             [kind |-> "n", nm |-> "a", num |-> 0, x |-> TRUE] >>
